@@ -14,6 +14,7 @@ import (
 	"strings"
 	"sync"
 	"time"
+	"verif/harness/internal/stlx"
 
 	astisub "github.com/asticode/go-astisub"
 	"verif/harness/internal/project"
@@ -41,6 +42,7 @@ func catalogue() []concOp {
 	var ops []concOp
 	docs := testdataDocs()
 	docs = append(docs, extraDocs(os.Getenv("VERIF_EXTRA_DOCS"))...)
+	docs = append(docs, stateLeavingDocs()...)
 	every := 3
 	if v, err := strconv.Atoi(os.Getenv("VERIF_CONC_EVERY")); err == nil && v > 0 {
 		every = v
@@ -143,6 +145,32 @@ func catalogue() []concOp {
 	}
 	_ = rr
 	return ops
+}
+
+// stateLeavingDocs: pairs of small documents of one format of which the first ends in the middle of something a
+// decoder keeps between characters, lines or packets (a floating accent without its letter, an emphasis tag that is
+// never closed) and the second would show it if that something outlived the call.
+func stateLeavingDocs() []doc {
+	tti := func(text []int, sec int) stlx.TTI {
+		return stlx.TTI{Ebn: 255, Tci: [4]int{0, 0, sec, 0}, Tco: [4]int{0, 0, sec + 1, 0}, Vp: 20, Jc: 2, Tf: text}
+	}
+	codes := func(s string, extra ...int) []int {
+		var o []int
+		for _, c := range []byte(s) {
+			o = append(o, int(c))
+		}
+		return append(o, extra...)
+	}
+	a := stlx.Pack(stlx.Doc{Fps: 25, Dsc: 0, Meta: map[string]int{"mnr": 23, "mnc": 40}, Ttis: []stlx.TTI{tti(codes("first"), 1), tti(codes("caf", 0xc2), 3)}})
+	b := stlx.Pack(stlx.Doc{Fps: 25, Dsc: 0, Meta: map[string]int{"mnr": 23, "mnc": 40}, Ttis: []stlx.TTI{tti(codes("event"), 1), tti(codes("again"), 3)}})
+	return []doc{
+		{Name: "leave-a.stl", Fmt: "stl", Data: a},
+		{Name: "leave-b.stl", Fmt: "stl", Data: b},
+		{Name: "leave-a.srt", Fmt: "srt", Data: []byte("1\n00:00:01,000 --> 00:00:02,000\n<i><font color=\"#ff0000\">never closed\n")},
+		{Name: "leave-b.srt", Fmt: "srt", Data: []byte("1\n00:00:01,000 --> 00:00:02,000\nplain text\n")},
+		{Name: "leave-a.vtt", Fmt: "vtt", Data: []byte("WEBVTT\n\n00:00:01.000 --> 00:00:02.000\n<b><c.loud>never closed\n")},
+		{Name: "leave-b.vtt", Fmt: "vtt", Data: []byte("WEBVTT\n\n00:00:01.000 --> 00:00:02.000\nplain text\n")},
+	}
 }
 
 // gate forces an interleaving: schedule entry c lets call c run until its next instrumented site
@@ -261,6 +289,14 @@ func cmdConc(args []string) error {
 		c := op.mk()
 		d := c.run()
 		put(concEvent{Mode: "alone", Call: op.label, Digest: d, Fpb: fpb, Fpa: astisub.VerifTablesFingerprint()})
+	}
+	// and once more in the opposite order: a call must not see what an earlier call of the same process left behind,
+	// whichever of two documents came first
+	for i := len(ops) - 1; i >= 0; i-- {
+		fpb := astisub.VerifTablesFingerprint()
+		c := ops[i].mk()
+		d := c.run()
+		put(concEvent{Mode: "alone", Call: ops[i].label, Digest: d, Fpb: fpb, Fpa: astisub.VerifTablesFingerprint()})
 	}
 	// gated interleavings
 	var scheds [][]int
